@@ -47,8 +47,14 @@ class Harness:
                 self._scen = scen
                 self._q = quota or 0
 
+            def _user_code(self):
+                # user code takes time: a scheduling point inside begin / the functor / end (not for step-level conformance runs)
+                if self._scen.get("pauses", True):
+                    S.vop("user.code", self, lambda: True, lambda: None)
+
             def begin(self):
                 S.W.event(op="wbegin", w=self.wid, q=self._q)
+                self._user_code()
                 fl = self._scen.get("fault")
                 if fl and fl["where"] == "begin" and fl["w"] == self.wid:
                     S.W.event(op="fault")
@@ -63,10 +69,12 @@ class Harness:
                 if fl and fl["where"] == "item" and fl["w"] == self.wid and fl["c"] == c and fl["i"] == i:
                     S.W.event(op="fault")
                     raise RuntimeError("injected fault in functor")
+                self._user_code()
                 return f(x)
 
             def end(self):
                 S.W.event(op="wend", w=self.wid)
+                self._user_code()
         self.Wk = Wk
         self.shared = None
 
